@@ -564,6 +564,8 @@ void run_concrete_int(FILE* fp, UnitRec const& u, FN const& fn, const char* tyna
     for (int i = 0; i < u.nin; ++i) in[i] = gen_int<T>(r, cls);
     // integer division: a zero divisor (and INT_MIN % -1) is outside the operator's domain and traps on x86
     if (u.name.find("_mod_") != std::string::npos) for (int i = 0; i < u.nin; ++i) if (in[i] == T(0) || in[i] == T(-1)) in[i] = T(7);
+    // shifts: under the sanitizers (C20 replay) stay inside the operator's domain - a non-negative count below the width, a non-negative left operand
+    if (getenv("VERIF_INT_SMALL") && (u.name.find("_shl_") != std::string::npos || u.name.find("_shr_") != std::string::npos)) for (int i = 0; i < u.nin; ++i) in[i] = (T)((uint32_t)in[i] & 15u);
     for (int j = 0; j < u.nout; ++j) out[j] = T(0);
     if (echo_inputs()) { fprintf(stderr, "ECHO %s %s", u.name.c_str(), tyname); for (int i = 0; i < u.nin; ++i) put_bits<T>(stderr, in[i]); fprintf(stderr, "\n"); fflush(stderr); }
     fn(in.data(), out.data());
